@@ -39,6 +39,7 @@ def gen_case(rng, pat, max_tags):
     rng.shuffle(tags)
     branch = [t for t in tags if rng.random() < 0.6]
     return dict(pat=pat, cfgver=cfgver, all=tags, branch=branch, scope=rng.choice(["default", "global", "branch"]), ignore=rng.random() < 0.2,
+                cli_scope=(rng.choice(["default", "global", "branch"]) if rng.random() < 0.35 else None),
                 setver=(rng.choice(pool) if rng.random() < 0.25 else None), flags=spec["flags"])
 
 
@@ -54,6 +55,7 @@ def _run_fake(case, tags_all, tags_branch, d):
         if ln.startswith("Current Version: "):
             shown = ln[len("Current Version: "):]
     args = ["update", "--dry", "--no-fetch", "--date", DATE] + (["--ignore-vcs-tag"] if case["ignore"] else [])
+    args += (["--tag-scope", case["cli_scope"]] if case.get("cli_scope") else [])
     args += (["--set-version", case["setver"]] if case["setver"] else case["flags"])
     r2 = drive.cli(args, cwd=proj.root, env=fv.env())
     import shutil
@@ -76,7 +78,7 @@ def replay(job):
     with drive.scratch_dir("c09") as d:
         c1, shown_clean, c2, _ = _run_fake(case, [t for t in case["all"] if valid(t)], [t for t in case["branch"] if valid(t)], d)
     return dict(ev="resolve", P=glue.parse_pattern(case["pat"]), cfgver=glue.cp(case["cfgver"]), all=[glue.cp(t) for t in case["all"]], branch=[glue.cp(t) for t in case["branch"]],
-                scope=case["scope"], ignore=case["ignore"], show=glue.cp(shown) if shown else [0], show_clean=glue.cp(shown_clean) if shown_clean else [0],
+                scope=case["scope"], uscope=case.get("cli_scope") or case["scope"], ignore=case["ignore"], show=glue.cp(shown) if shown else [0], show_clean=glue.cp(shown_clean) if shown_clean else [0],
                 old=glue.cp(r2.old_version()) if r2.old_version() else [0], new=glue.cp(r2.new_version()) if (r2.exit == 0 and r2.new_version()) else [0],
                 exit=r2.exit, exit_clean=c2.exit, today=drive.TODAY.toordinal(), exc=(r1.exc or r2.exc or ""), setver=case["setver"],
                 dbg="pattern=%s cfg=%s all=%s branch=%s scope=%s ignore=%s: bumpver %s" % (case["pat"], case["cfgver"], case["all"], case["branch"], case["scope"], case["ignore"], " ".join(args)),
@@ -116,10 +118,11 @@ def replay_real(job):
         for ln in r1.stdout.splitlines():
             if ln.startswith("Current Version: "):
                 shown = ln[len("Current Version: "):]
-        args = ["update", "--dry", "--no-fetch", "--date", DATE] + (["--ignore-vcs-tag"] if case["ignore"] else []) + (["--set-version", case["setver"]] if case["setver"] else case["flags"])
+        args = (["update", "--dry", "--no-fetch", "--date", DATE] + (["--ignore-vcs-tag"] if case["ignore"] else []) + (["--tag-scope", case["cli_scope"]] if case.get("cli_scope") else [])
+                + (["--set-version", case["setver"]] if case["setver"] else case["flags"]))
         r2 = drive.cli(args, cwd=root, env=env)
     return dict(ev="resolve", P=glue.parse_pattern(case["pat"]), cfgver=glue.cp(case["cfgver"]), all=[glue.cp(t) for t in listed_all], branch=[glue.cp(t) for t in listed_branch],
-                scope=case["scope"], ignore=case["ignore"], show=glue.cp(shown) if shown else [0], show_clean=glue.cp(shown) if shown else [0],
+                scope=case["scope"], uscope=case.get("cli_scope") or case["scope"], ignore=case["ignore"], show=glue.cp(shown) if shown else [0], show_clean=glue.cp(shown) if shown else [0],
                 old=glue.cp(r2.old_version()) if r2.old_version() else [0], new=glue.cp(r2.new_version()) if (r2.exit == 0 and r2.new_version()) else [0],
                 exit=r2.exit, exit_clean=r2.exit, today=drive.TODAY.toordinal(), exc=(r1.exc or r2.exc or ""), setver=case["setver"],
                 dbg="REAL GIT pattern=%s cfg=%s all=%s merged=%s scope=%s ignore=%s: bumpver %s" % (case["pat"], case["cfgver"], listed_all, listed_branch, case["scope"], case["ignore"], " ".join(args)),
@@ -154,13 +157,13 @@ def run(ctx):
     events += drive.pmap(replay_real, [(c, i) for i, c in enumerate(real_cases)], hooks=False, chunksize=2)
     for i, e in enumerate(events):
         e["id"] = i + 1
-    keep = ("id", "ev", "P", "cfgver", "all", "branch", "scope", "ignore", "show", "show_clean", "old", "new", "exit", "exit_clean", "today")
+    keep = ("id", "ev", "P", "cfgver", "all", "branch", "scope", "uscope", "ignore", "show", "show_clean", "old", "new", "exit", "exit_clean", "today")
     fails, st = tlc.validate_events("Trace_Text", [{k: e[k] for k in keep} for e in events], name="C09", xmx="3g")
     ctx.add_trace(st)
     by_id = {e["id"]: e for e in events}
     for f in fails:
         e = by_id[f["id"]]
-        ctx.violation(dict(clause=f["clause"], ignore=e["ignore"], scope=e["scope"], impossible_date_tag=e["impossible"], uncaught=e["exc"].split(":")[0] if e["exc"] else "", set_version=bool(e["setver"])),
+        ctx.violation(dict(clause=f["clause"], ignore=e["ignore"], scope=e["scope"], scope_on_command_line=e["uscope"] != e["scope"], impossible_date_tag=e["impossible"], uncaught=e["exc"].split(":")[0] if e["exc"] else "", set_version=bool(e["setver"])),
                       case=dict(what=e["dbg"], shown=glue.uncp(e["show"]) if e["show"][0] else None, announced=glue.uncp(e["new"]) if e["new"][0] else None, exc=e["exc"][:200]), expected=f["detail"][:200])
     ctx.count("fake_git_cases", len(cases))
     ctx.count("real_git_cases", len(real_cases))
